@@ -115,6 +115,12 @@ case $ID in
     MIRIFLAGS="-Zmiri-ignore-leaks -Zmiri-many-seeds=0..6" T cargo +nightly miri test --offline --features serde,internal-test-strategies --test seed_demo; without=$?
     git apply $S/patch.diff
     MIRIFLAGS="-Zmiri-ignore-leaks -Zmiri-many-seeds=0..6" T cargo +nightly miri test --offline --features serde,internal-test-strategies --test seed_demo; with=$? ;;
+  C02-5)
+    git apply $S/demo_hooks.diff; cp $S/demo.rs tests/seed_demo.rs; T cargo test --offline --test seed_demo; without=$?
+    git apply $S/patch.diff; T cargo test --offline --test seed_demo; with=$? ;;
+  C09-5)
+    git apply $S/hook.diff; T cargo test --offline --lib seeded_demo; without=$?
+    git apply $S/patch.diff; T cargo test --offline --lib seeded_demo; with=$? ;;
   *)
     # generic: integration test, no hooks
     cp $S/demo.rs tests/seed_demo.rs; T cargo test --offline --test seed_demo; without=$?
